@@ -14,7 +14,8 @@ import harness  # noqa: E402
 from engine import State  # noqa: E402
 from harness import MirCheck, Src, fpv  # noqa: E402
 from summaries import mk_time  # noqa: E402
-from values import VArr, VSeq, VStr, VStruct, bv, key_bv  # noqa: E402
+from values import VArr, VEnum, VOpaque, VSeq, VStr, VStruct, bv, key_bv  # noqa: E402
+from summaries import OPTION  # noqa: E402
 
 NB = 256
 
@@ -27,9 +28,17 @@ def mk_struct(eng, tyname, vals):
     return VStruct([vals[f] for f in names], adt.name)
 
 
-def id_in_bucket(src, name, j):
-    """256-bit id whose first differing bit from the all-zero local id is bit j (big-endian bit numbering as in get_bucket_index)"""
+def id_in_bucket(src, name, j, fixed=None):
+    """256-bit id whose first differing bit from the all-zero local id is bit j (big-endian bit numbering as in get_bucket_index);
+    fixed: {byte index: value} for raw bytes that are concrete in this obligation (exported to the native case under the same names)"""
     raw = src.bytes(name, 32)
+    if fixed:
+        el = list(raw.elems)
+        for b_, v in fixed.items():
+            el[b_] = bv(v, 8)
+            if not src.concrete:
+                src.hyps.append(z3.BitVec(f"{name}.{b_}", 8) == bv(v, 8))
+        raw = VArr(el)
     out = []
     for byte in range(32):
         lo, hi = byte * 8, byte * 8 + 7
@@ -44,11 +53,11 @@ def id_in_bucket(src, name, j):
     return VArr(out)
 
 
-def key_with_target(src, t):
+def key_with_target(src, t, fixed=None):
     """key whose first differing bit from local (= 0) is t; t = None: the key equals the local id"""
     if t is None:
         return VArr([bv(0, 8)] * 32)
-    return id_in_bucket(src, "key", t)
+    return id_in_bucket(src, "key", t, fixed)
 
 
 def node_info(eng, idb, tag):
@@ -57,7 +66,7 @@ def node_info(eng, idb, tag):
                                                   "last_seen": mk_time(bv(0, 64), bv(0, 32), "SystemTime"), "capacity": cap})
 
 
-def build_table(eng, src, layout, B, max_size=None):
+def build_table(eng, src, layout, B, max_size=None, fixed=None):
     """layout: list of bucket indices that may be populated.  -> (table value, nodes [(bucket, slot, idbv, valid)], lens)"""
     buckets = []
     nodes = []
@@ -70,7 +79,7 @@ def build_table(eng, src, layout, B, max_size=None):
             lens[j] = ln
             elems = []
             for s in range(caps[j]):
-                idb = id_in_bucket(src, f"b{j}s{s}", j)
+                idb = id_in_bucket(src, f"b{j}s{s}", j, fixed(tag) if fixed else None)
                 elems.append(node_info(eng, idb, tag))
                 nodes.append((j, s, key_bv(idb), z3.ULT(bv(s, 64), ln), tag))
                 tag += 1
@@ -192,17 +201,20 @@ def build_mutation(ck, layout, xb, B, op, src, obs=None):
     return {"eng": eng, "hyps": hyps, "goals": {g: z3.Implies(pc, f) for g, f in G.items()}, "reach": {"reach_end": pc}}
 
 
-def build_engine_ops(ck, layout, t, B, maxcount, fail, src, obs=None, readd=False, evict=False):
+def build_engine_ops(ck, layout, t, B, maxcount, fail, src, obs=None, readd=False, evict=False, reply=False):
     """the same kernel reached through the async engine API: DhtCoreEngine::select_query_peers with trust selection disabled
     (= exactly the closest candidates in distance order), and handle_node_failure(x) followed by find_nodes (x is gone)"""
     from harness import run_async
 
     eng = ck.engine(unwind=260) if obs is None else ck.meta_engine()
     eng.seq_cap = 24
-    keyb = key_with_target(src, t)
+    # reply obligation: bytes 1..30 of every id and of the key are concrete (different per peer).  The trust-aware selector ranks by an f64 score of the
+    # 128 high-order distance bits; with those nearly concrete a wrongly routed reply is found in seconds instead of timing out.
+    fx = (lambda tag: {b_: (37 * (tag + 1) + 11 * b_) & 0xFF for b_ in range(1, 31)}) if reply else None
+    keyb = key_with_target(src, t, {b_: (5 * b_ + 3) & 0xFF for b_ in range(1, 31)} if reply else None)
     kbv = key_bv(keyb)
     count = src.bv("count", 64)
-    table, nodes, lens = build_table(eng, src, layout, B)
+    table, nodes, lens = build_table(eng, src, layout, B, fixed=fx)
     which = src.bv("failed_slot", 8)
     hyps = list(src.hyps) + table_hyps(nodes, lens, B) + [z3.ULE(count, bv(maxcount, 64)), z3.ULT(which, bv(max(1, len(nodes)), 8))]
     # the failing peer is one of the peers of the first populated bucket (keeps its bucket index concrete)
@@ -239,9 +251,39 @@ def build_engine_ops(ck, layout, t, B, maxcount, fail, src, obs=None, readd=Fals
                 vals.append(eng.alloc(st, c13_engine.empty_slots_map(eng)))
             else:
                 vals.append(VOpaque("DhtCoreEngine." + f))
+        if reply:
+            # trust-weighted selection is ENABLED (arbitrary trust function, arbitrary configuration): a reply to a remote find-node must not depend on it
+            import c16_selector
+
+            T = z3.Const("trust_fn", z3.ArraySort(z3.BitVecSort(256), z3.Float64()))
+            c16_selector.install_trust_provider(eng, T)
+            # what an EigenTrustEngine answers before any computation: 0.9 for pre-trusted peers, 0.0 for everybody else (the native driver pre-trusts exactly these)
+            for n in nodes:
+                pt = src.bool(f"pretrusted.{n[4]}")
+                hyps.append(z3.Select(T, n[2]) == z3.If(pt, z3.FPVal(0.9, z3.Float64()), z3.FPVal(0.0, z3.Float64())))
+            # the default selection configuration (weight 0.3, threshold 0.1); exclusion of untrusted peers symbolic
+            w, thr = z3.FPVal(0.3, z3.Float64()), z3.FPVal(0.1, z3.Float64())
+            cfg = c16_selector.mk_struct(eng, "TrustSelectionConfig", {"trust_weight": w, "min_trust_threshold": thr, "exclude_untrusted": src.bool("cfg.exclude_untrusted")})
+            selv = c16_selector.mk_struct(eng, "TrustAwarePeerSelector", {"trust_provider": eng.alloc(st, VOpaque("trust provider")), "config": cfg, "storage_config": cfg})
+            names_ = [f for f, _ in adt.fields]
+            vals[names_.index("trust_peer_selector")] = VEnum(OPTION, bv(1, 8), {0: (), 1: (selv,)})
         re_ = eng.alloc(st, VStruct(vals, "DhtCoreEngine"))
         rk = eng.alloc(st, VStruct([keyb], "DhtKey"))
-        if fail:
+        if reply:
+            import c05
+
+            minfo = eng.enum_info("DhtMessage")
+            names_ = c05.variant_fields(eng, "DhtMessage", "FindNode")
+            fv = {"target": VStruct([keyb], "DhtKey"), "count": count}
+            msg = VEnum(minfo, bv(minfo.index("FindNode"), 8), {minfo.index("FindNode"): tuple(fv[n] for n in names_)})
+            wrapper = c05.mk_named(eng, "DhtRequestWrapper", {"id": VStr(bv(77, 64)), "message": msg})
+            st2, resp = run_async(eng, ck.fn_in("DhtCoreEngine", "handle_request"), [re_, wrapper], st)
+            rinfo = eng.enum_info("DhtResponse")
+            r = resp.f[eng.struct_adt("DhtResponseWrapper").field_index("response")]
+            vi = rinfo.index("FindNodeReply")
+            okk = r.idx == bv(vi, 8)
+            res = r.pay[vi][c05.variant_fields(eng, "DhtResponse", "FindNodeReply").index("nodes")]
+        elif fail:
             xbytes = VArr([z3.simplify(z3.Extract(255 - 8 * i, 248 - 8 * i, xbv)) for i in range(32)])
             xid = VStruct([VStruct([xbytes], "DhtKey")], "NodeId")
             if readd:
@@ -266,7 +308,7 @@ def build_engine_ops(ck, layout, t, B, maxcount, fail, src, obs=None, readd=Fals
             st2, out = run_async(eng, ck.fn_in("DhtCoreEngine", "find_nodes"), [re_, rk, count], st)
             res = out.pay[0][0]
             okk = out.idx == bv(0, 8)
-        else:
+        elif not reply:
             st2, res = run_async(eng, ck.fn_in("DhtCoreEngine", "select_query_peers"), [re_, rk, count], st)
             okk = z3.BoolVal(True)
         pc = z3.And(st2.pc, okk)
@@ -285,6 +327,9 @@ def build_engine_ops(ck, layout, t, B, maxcount, fail, src, obs=None, readd=Fals
     if fail:
         G = {"after_failure/" + g: f for g, f in G.items()}
         G["after_failure/failed_peer_appears_in_no_answer"] = z3.And(*[z3.Implies(z3.ULT(bv(p, 64), rl), rids[p] != xbv) for p in range(len(rids))]) if rids else z3.BoolVal(True)
+    elif reply:
+        G = {"find_node_reply/" + g: f for g, f in G.items()}
+        G["find_node_reply/reply_never_exceeds_the_protocol_cap"] = z3.ULE(rl, bv(20, 64))
     else:
         G = {"trust_disabled/" + g: f for g, f in G.items()}
     return {"eng": eng, "hyps": hyps, "goals": {g: z3.Implies(pc, f) for g, f in G.items()}, "reach": {"reach_nonempty": z3.And(pc, rl != 0)}}
@@ -296,6 +341,7 @@ def engine_cases(only_removal=False):
     cs = []
     if not only_removal:
         cs.append((dict(base, fail=False), "engine[select_query_peers, trust selection disabled]"))
+        cs.append((dict(base, fail=False, reply=True, layout=[[3, 1], [7, 1]], B=1, maxcount=1), "engine[find-node reply with trust selection enabled]"))
     cs.append((dict(base, fail=True), "engine[handle_node_failure+find_nodes]"))
     cs.append((dict(base, fail=True, readd=True), "engine[re-announced under another address, handle_node_failure+find_nodes]"))
     cs.append((dict(base, fail=True, readd=True, evict=True), "engine[re-announced under another address, evict_node+find_nodes]"))
@@ -352,7 +398,7 @@ def register(ck, tag, driver, params, builder):
 
 def builder_for(ck, driver, params):
     if driver == "engine_ops":
-        return lambda s, obs: build_engine_ops(ck, params["layout"], params["t"], params["B"], params["maxcount"], params["fail"], s, obs, params.get("readd", False), params.get("evict", False))
+        return lambda s, obs: build_engine_ops(ck, params["layout"], params["t"], params["B"], params["maxcount"], params["fail"], s, obs, params.get("readd", False), params.get("evict", False), params.get("reply", False))
     if driver == "closest":
         return lambda s, obs: build_closest(ck, params["layout"], params["t"], params["B"], params["maxcount"], s, obs)
     return lambda s, obs: build_mutation(ck, params["layout"], params["xb"], params["B"], params["op"], s, obs)
